@@ -143,7 +143,8 @@ class Harness:
             if v.bucket in self.done_buckets:
                 self.dups[v.bucket] = self.dups.get(v.bucket, 0) + 1
                 continue
-            shrinkable = not v.bucket.startswith("hang")  # every attempt on a hanging case costs the stall time
+            # every attempt on a hanging case costs the stall time: such cases are reported unshrunk
+            shrinkable = not v.bucket.startswith("hang") and "HangDetected" not in v.msg
             if self.target is None and raise_on_violation and shrinkable:
                 self.target = v.bucket
             if not raise_on_violation or v.bucket == self.target or not shrinkable:
